@@ -22,13 +22,17 @@ try:
         if rc != 0:
             meta["note"] = "patch no longer applies to /repo HEAD: " + out[-300:]
         else:
-            demo = "PYTHONPATH=%s /venv/bin/python %s/demo.py" % (WT, d)
+            # the demo is run from a copy inside the scratch worktree (<root>/_out/<name>/demo.py): demos locate "their" library relative to themselves
+            shutil.rmtree(os.path.join(WT, "_out", n), ignore_errors=True)
+            shutil.copytree(d, os.path.join(WT, "_out", n))
+            demo = "OMP_NUM_THREADS=2 PYTHONPATH=%s /venv/bin/python _out/%s/demo.py" % (WT, n)
             rc0, o0 = sh(demo, cwd=WT, timeout=1800)
             sh("git apply %s/patch.diff" % d, cwd=WT)
             rc1, o1 = sh(demo, cwd=WT, timeout=1800)
             t0 = time.time()
-            rct, ot = sh("/venv/bin/python -m pytest -q -p no:cacheprovider -x -n 10 test 2>&1 | tail -3", cwd=WT, timeout=7200)
+            rct, ot = sh("OMP_NUM_THREADS=1 /venv/bin/python -m pytest -q -p no:cacheprovider -x -n 12 test 2>&1 | tail -3", cwd=WT, timeout=7200)
             sh("git checkout -- .", cwd=WT)
+            shutil.rmtree(os.path.join(WT, "_out"), ignore_errors=True)
             meta["ran"] = [dict(cmd="demo on unchanged tree", exit=rc0), dict(cmd="demo with patch", exit=rc1, tail=o1[-300:]),
                            dict(cmd="pytest -n 10 test (with patch)", tail=ot[-200:], wall_s=round(time.time() - t0))]
             meta["confirmed"] = (rc0 == 0 and rc1 != 0 and " passed" in ot and "failed" not in ot)
